@@ -276,6 +276,16 @@ fn gen_c13(run_seed: u64, tier: Tier) -> (Scenario, &'static str) {
         }
         r
     };
+    // the size limit is tested on the announced body length alone: an oversized frame whose
+    // other header fields are out of range as well is still answered 'too large' and skipped
+    // (closing it would satisfy C10, but not C13; answering 0x03 satisfies both)
+    if target_body > limit && rng.chance(1, 6) {
+        if rng.chance(1, 2) {
+            r.key_len_override = Some(*rng.pick(&[251u16, 300, 65535]));
+        } else {
+            r.extras_len_override = Some(*rng.pick(&[21u8, 64, 255]));
+        }
+    }
     if target_body <= limit && !natural_store {
         r = SymReq::store(op::SET, &key, Val::Fill { byte: 0x81, len: (target_body - 8 - key.len()) as u32 }, 7, 0, CasSel::Zero);
     }
